@@ -52,8 +52,10 @@ Inductive result :=
   | RBrokenPipe            (* channel closed and drained: "socket closed" *)
   | RTimedOut
   | RSendFail.             (* send() failed *)
-(* CSubscribed: receiver active, waiting for the write mutex; CSending: holds the write mutex, sendmsg in progress *)
-Inductive cstate := CInit | CSubscribed | CSending | CWaiting | CDone (r : result).
+(* CSubscribed: receiver active, waiting for the write mutex; CSending: holds the write mutex, sendmsg in progress;
+   CWritten: the bytes have left (the peer can see the call) but sendmsg / send() has not returned to the caller yet — on a
+   multi-threaded executor, or with a transport whose write completes asynchronously, anything can happen in between *)
+Inductive cstate := CInit | CSubscribed | CSending | CWritten | CWaiting | CDone (r : result).
 Record caller := { c_kind : ckind; c_serial : N; c_st : cstate }.
 
 (* the socket reader: between messages / holding a message that still has to go to n sender entries / finished *)
@@ -138,7 +140,9 @@ Inductive label :=
   | LPush                        (* one broadcast_direct completes (or fails at once) *)
   | LNext                        (* the for loop over the senders is over *)
   | LArrive (it : item)          (* the transport has one more item for us *)
-  | LHijack (e : bool).          (* the application's add_match for the rule of an internal entry inserts its sender *)
+  | LHijack (e : bool)           (* the application's add_match for the rule of an internal entry inserts its sender *)
+  | LWire (i : nat)              (* the call's bytes are out; send_message has not returned yet *)
+  | LRet (i : nat).              (* ... now it returns Ok; the guard is dropped (LSend i true = LWire i; LRet i in one step) *)
 
 Definition not_sent (st : cstate) : bool := match st with CInit | CSubscribed | CSending => true | _ => false end.
 (* some call of ours with serial r has not been written yet *)
@@ -236,6 +240,27 @@ Definition step (l : label) (s : sys) : option sys :=
       match reader s with
       | RIdle => if (if e then kerr s else kret s) then Some (hijack s e) else None
       | _ => None
+      end
+  | LWire i =>
+      match nth_error (callers s) i with
+      | Some c => match c_st c with
+                  | CSending => Some (with_callers (with_wire s (wire s ++ [c_serial c])) (upd (callers s) i (set_st c CWritten)))
+                  | _ => None
+                  end
+      | None => None
+      end
+  | LRet i =>
+      match nth_error (callers s) i with
+      | Some c => match c_st c with
+                  | CWritten =>
+                      let s := with_wlock s None in
+                      match c_kind c with
+                      | KNoReply => Some (finish s i c RNoReply)
+                      | _ => Some (with_callers s (upd (callers s) i (set_st c CWaiting)))
+                      end
+                  | _ => None
+                  end
+      | None => None
       end
   end.
 
